@@ -340,6 +340,12 @@ func (s *scopedWalker) walkFn(path string, d fs.DirEntry, err error) error {
 	// If the status byte is zero, the file-list has terminated.
 
 	if info.Mode().IsDir() && !opts.Recurse() {
+		if name == "." {
+			// --dirs without --recursive: the contents of a directory
+			// named with a trailing slash are listed, one level deep
+			// (rsync/flist.c:send_file_list)
+			return nil
+		}
 		return filepath.SkipDir
 	}
 
